@@ -204,53 +204,76 @@ Fixpoint trim_nl (s : string) : string :=
 (* ---- histories ---- *)
 Inductive op :=
 | SetEnv (k v : string)                                                   (* os.Setenv between calls *)
+| MkClosure (k : kind) (cmd : string) (baked : slice)                     (* f := sh.RunCmd/OutCmd(cmd, baked...): closure number (closures so far) *)
 | CallClosure (c : nat) (extra : slice)                                   (* closures[c](extra...) *)
 | CallDirect (f : fnsel) (emap : list (string * string)) (cmd : string) (args : slice).
 
 Inductive obs :=
 | OSet
-| OCall (argv : list string) (out : option string)   (* what the child was started with; the text handed back *)
-| OBad.                                              (* no such closure *)
+| OMk
+| OCall (argv : list string)        (* what the child was started with *)
+        (out : option string)       (* the text handed back to the caller *)
+        (stdout : string)           (* the bytes that reached the process's os.Stdout during the call *)
+        (status : nat)              (* sh.ExitStatus of the returned error; 0 = nil *)
+| OBad.                             (* no such closure *)
+
+(* strconv.ParseBool: the spellings of true *)
+Definition parse_bool_true (s : string) : bool :=
+  existsb (String.eqb s) ["1"; "t"; "T"; "TRUE"; "true"; "True"].
+(* mg.Verbose(): b, _ := strconv.ParseBool(os.Getenv("MAGEFILE_VERBOSE")) - read when it is CALLED *)
+Definition verbose (penv : list (string * string)) : bool := parse_bool_true (env_get penv "MAGEFILE_VERBOSE").
 
 Section History.
 Variable child_out : list string -> string.   (* the child's stdout as a function of its argv (external) *)
+Variable child_exit : list string -> nat.     (* the child's exit status as a function of its argv (external); not 0: the call fails *)
 Variable fixed : bool.
-Variable cls : list closure.
 
-Definition out_closure (k : kind) (argv : list string) : option string :=
-  match k with KRun => None | KOut => Some (trim_nl (child_out argv)) end.
-Definition out_direct (f : fnsel) (argv : list string) : option string :=
+(* where the child's stdout goes.  RunCmd closure -> Run -> RunWith: os.Stdout if mg.Verbose() AT THE CALL, else
+   nowhere; OutCmd -> Output: a buffer that is new for every call, handed back without one final newline -
+   also when the child fails (cmd.go:88-92 returns the text together with the error) *)
+Definition finish_closure (k : kind) (penv : list (string * string)) (argv : list string) : obs :=
+  match k with
+  | KRun => OCall argv None (if verbose penv then child_out argv else "") (child_exit argv)
+  | KOut => OCall argv (Some (trim_nl (child_out argv))) "" (child_exit argv)
+  end.
+Definition finish_direct (f : fnsel) (penv : list (string * string)) (argv : list string) : obs :=
   match f with
-  | FOutput | FOutputWith => Some (trim_nl (child_out argv))
-  | FExec => Some (child_out argv)                     (* the caller's own writer receives the raw bytes *)
-  | _ => None
+  | FRun | FRunWith => OCall argv None (if verbose penv then child_out argv else "") (child_exit argv)
+  | FRunV | FRunWithV => OCall argv None (child_out argv) (child_exit argv)
+  | FOutput | FOutputWith => OCall argv (Some (trim_nl (child_out argv))) "" (child_exit argv)
+  | FExec => OCall argv (Some (child_out argv)) "" (child_exit argv)   (* the caller's own writer receives the raw bytes *)
   end.
 
-(* the code a call operation runs, and how the text handed back is made from the child's argv *)
-Definition call_prog (penv : list (string * string)) (o : op) : option (prog (list string) * (list string -> option string)) :=
+(* the code a call operation runs, and what the caller and os.Stdout get, given the child's argv *)
+Definition call_prog (cls : list closure) (penv : list (string * string)) (o : op) : option (prog (list string) * (list string -> obs)) :=
   match o with
   | SetEnv _ _ => None
+  | MkClosure _ _ _ => None
   | CallClosure c extra =>
       match nth_error cls c with
-      | Some cl => Some (closure_call fixed cl penv extra, out_closure (cl_kind cl))
+      | Some cl => Some (closure_call fixed cl penv extra, finish_closure (cl_kind cl) penv)
       | None => None
       end
-  | CallDirect f emap cmd args => Some (direct_call fixed f emap penv cmd args, out_direct f)
+  | CallDirect f emap cmd args => Some (direct_call fixed f emap penv cmd args, finish_direct f penv)
   end.
 
-Definition step_op (penv : list (string * string)) (h : heap) (o : op) : list (string * string) * heap * obs :=
+(* state: the process environment, the closures made so far, the heap *)
+Definition step_op (penv : list (string * string)) (cls : list closure) (h : heap) (o : op)
+  : list (string * string) * list closure * heap * obs :=
   match o with
-  | SetEnv k v => ((k, v) :: penv, h, OSet)
-  | _ => match call_prog penv o with
-         | Some (p, outf) => let '(h', argv) := run_seq p h in (penv, h', OCall argv (outf argv))
-         | None => (penv, h, OBad)
+  | SetEnv k v => ((k, v) :: penv, cls, h, OSet)
+  | MkClosure k cmd baked =>                 (* cmd.go:34-46: captures cmd and the slice; reads nothing else *)
+      (penv, cls ++ [{| cl_kind := k; cl_cmd := cmd; cl_baked := baked |}], h, OMk)
+  | _ => match call_prog cls penv o with
+         | Some (p, fin) => let '(h', argv) := run_seq p h in (penv, cls, h', fin argv)
+         | None => (penv, cls, h, OBad)
          end
   end.
 
 (* per operation: what was observed and the heap right after it *)
-Fixpoint run_history (penv : list (string * string)) (h : heap) (ops : list op) : list (obs * heap) :=
+Fixpoint run_history (penv : list (string * string)) (cls : list closure) (h : heap) (ops : list op) : list (obs * heap) :=
   match ops with
   | [] => []
-  | o :: r => let '(penv', h', ob) := step_op penv h o in (ob, h') :: run_history penv' h' r
+  | o :: r => let '(penv', cls', h', ob) := step_op penv cls h o in (ob, h') :: run_history penv' cls' h' r
   end.
 End History.
